@@ -523,3 +523,39 @@ class ServerThread:
 
     def when_raised(self):
         return not self._stop_server_thread
+
+
+# ===================================================================== disable() of the passive side (D25, D30)
+@contract("secsgem.common.tcp_server_connection:TcpServerConnection.disable", "C09")
+class ServerDisable:
+    """Partial correctness of the passive side's disable(): it returns with the connection not enabled, the link closed
+    once (nothing at all when it was not enabled), a live listener told to stop with its listening socket closed (so that
+    its select / accept wakes up), and the stop flag not left set.  The flag and the thread's life belong to the listener
+    thread: any value at every turn of the wait; that the wait ends is liveness (bounded pass)."""
+
+    uses = [IsAliveAbs, SocketCloseNeverFailsAbs, DisconnectAbs]
+    canary = "every-path"
+
+    def inputs():
+        import threading
+        return {"self": Obj(TcpServerConnection, _enabled=Bool, _stop_server_thread=Const(False), _listener_lock=Const(threading.Lock()),
+                            _server_thread=Optional(Obj(AbsThread, g_dead=Bool)),
+                            _server_sock=Optional(Obj(AbsSocket, g_closed=Bool)), g_disconnects=Int(0, None))}
+
+    def raises():
+        return {}
+
+    def ensures_not_enabled(self):
+        return not self._enabled
+
+    def ensures_flag_not_left_set(self):
+        return not self._stop_server_thread
+
+    def ensures_link_closed_once(self, old):
+        return self.g_disconnects == old.self.g_disconnects + (1 if old.self._enabled else 0)
+
+    def inv(self, stop_listener):
+        # rely: only a live listener thread writes the flag - with none to stop it stays as disable() found it
+        return not self._enabled and (stop_listener or not self._stop_server_thread)
+
+    loops = {1: Loop(a=inv, modifies=["self._stop_server_thread", "self._server_thread.g_dead"])}
